@@ -152,8 +152,9 @@ def render_fields(fields, indent="    "):
         base, decl = _decl(T, fname or "")
         if base[0] in ("struct", "union") and base[3]:
             inner = render_fields(base[2], indent + "    ")
-            lines.append("%s%s {\n%s\n%s} %s;" % (indent, base[0], inner, indent, decl) if decl else
-                         "%s%s {\n%s\n%s};" % (indent, base[0], inner, indent))
+            tag = (" " + base[1]) if base[3] == "tag" else ""   # "tag": a named structure declared inline (never registered)
+            lines.append("%s%s%s {\n%s\n%s} %s;" % (indent, base[0], tag, inner, indent, decl) if decl else
+                         "%s%s%s {\n%s\n%s};" % (indent, base[0], tag, inner, indent))
             continue
         if base[0] == "enum" and not base[1]:
             raise ValueError("anonymous enum field not expressible")
